@@ -1506,6 +1506,40 @@ func c10Sources(tier string, fn func(kind, src string)) {
 	for _, src := range c10CyclicObjects() {
 		fn("cyclic-objects", src)
 	}
+	// a list and the result of a list method bound WITHOUT a copy (得到): every sequence of <= 3
+	// operations that change one of them or put one into the other, then both are rendered
+	{
+		producers := []string{"以甲（合并：【4，5】）得到乙", "以甲（合并：【】）得到乙", "以甲（后增：4）得到乙", "以甲（前增：0）得到乙", "以甲（合并：【4】、【5，6，7】）得到乙"}
+		ops := []string{"以乙（后增：99）", "以甲（后增：乙）", "以乙（后增：甲）", "以甲（后增：7）", "以甲（合并：乙）", "以乙（合并：【甲】）", "以甲（前增：乙）", "乙#1 = 甲", "甲#1 = 乙"}
+		var seqs [][]int
+		for a := range ops {
+			seqs = append(seqs, []int{a})
+			for b := range ops {
+				seqs = append(seqs, []int{a, b})
+				if tier == "thorough" || (a < 3 || b < 3) {
+					for c := range ops {
+						seqs = append(seqs, []int{a, b, c})
+					}
+				}
+			}
+		}
+		for _, pr := range producers {
+			for _, sq := range seqs {
+				var b strings.Builder
+				b.WriteString("令甲 = 【1，2，3】\n" + pr + "\n")
+				for i, o := range sq {
+					// each operation in a method of its own with a handler: a refused operation
+					// (a list put into itself) must not end the program before the rendering
+					fmt.Fprintf(&b, "如何步%d？\n    %s\n    输出 1\n    拦截异常：\n        输出 0\n", i, ops[o])
+				}
+				for i := range sq {
+					fmt.Fprintf(&b, "（步%d）\n", i)
+				}
+				b.WriteString("输出【甲之文本，乙之文本，甲之长度，乙之长度】")
+				fn("by-reference-results", b.String())
+			}
+		}
+	}
 	// the same operation first with fitting operands, then with operands that do not fit
 	// (whatever the first use left behind): a Zn error, not a crash
 	tmpls := []string{"{}-{}", "{#.2}：{}", "{#+}{#.1%}{#.2E}"}
